@@ -32,7 +32,7 @@ def matrix_of(sx, st, v, n):
     return {(i, j): n.rf(sx.mat_elem(st, v, i, j)) for i in range(3) for j in range(3)}
 
 
-def run(ctx):
+def _run_rules(ctx):
     rep, f = ctx.rep, ctx.facts
     rep.trust('pk/sym.py and its nalgebra model (Rotation2/Isometry::to_homogeneous, Transform*Transform); Iterator::map '
               'yields exactly one item per input item, in order')
@@ -72,8 +72,8 @@ def run(ctx):
     # ---- R2/R3 what is yielded for one operation: wrap(matrix(operation) * matrix(site transform)) ------------------------
     _yielded_placement(ctx, nst, ys, lp, b)
     # Transform2 x Transform2 is the matrix product left*right
-    mm = [x for x in f.bodies.values() if x.file.endswith('transform.rs') and x.fn_name == 'mul' and not x.is_closure
-          and 'Transform2' in x.local_ty(1) and 'Transform2' in x.local_ty(2)]
+    mm = [x for x in f.bodies.values() if x.fn_name == 'mul' and not x.is_closure and (x.impl_trait or '').endswith('ops::Mul')
+          and x.arg_count == 2 and 'Transform2' in x.local_ty(1) and 'Transform2' in x.local_ty(2)]
     rep.floor('R2', 'Transform2 x Transform2 impls', len(mm), 4)
     for mb in mm:
         rep.saw(mb)
@@ -275,3 +275,10 @@ def _yielded_placement(ctx, nst, ys, lp, b):
             why2 = why3 = 'the yielded value is not a 3x3 transform: %s' % str(ex)[:100]
     rep.check(ok2, 'R2', 'operation-times-site', where(b), 'placement k = operation_k * site transform (exact normal forms)', why2)
     rep.check(ok3, 'R3', 'wrap-into-[-1/2,1/2)', where(b), 'periodic(1, -1/2) applied to every placement (exact normal forms)', why3)
+
+
+def run(ctx):
+    _run_rules(ctx)
+    from .common import import_obligations
+    # the operations applied are the group's (C16 R1-R3)
+    import_obligations(ctx, 'C16', 'R4', only_rules={'R3', 'R1', 'R2'}, floor=20)
